@@ -4,6 +4,7 @@ import (
 	"fmt"
 	"go/ast"
 	"go/token"
+	"sort"
 	"strconv"
 	"strings"
 )
@@ -127,10 +128,14 @@ func genInternalQueries(repo string) (string, error) {
 		return "", fmt.Errorf("stream: the pass-through branch is not `else if %s.outCh != nil { %s.outCh <- %s }`", r, r, ev)
 	}
 
-	// --- handleQuery switch
+	// --- handleQuery dispatch: a TABLE (constant value → handler) plus the default's behaviour.
+	// Accepted spellings: `switch name { case c1[, c2…]: … default: … }`, the tagless
+	// `switch { case name == c1 || …: … }` and an if / else-if chain `if name == c1 { … } else if …
+	// else { … }`, cases in any order, case lists merged or split. The table is emitted sorted
+	// by constant value; the model (`QueryHandle.route`) looks names up in it.
 	hq := findFunc(f, "serfQueries", "handleQuery")
 	if hq == nil || hq.Body == nil || len(hq.Body.List) != 2 {
-		return "", fmt.Errorf("serfQueries.handleQuery: expected the name assignment and one switch")
+		return "", fmt.Errorf("serfQueries.handleQuery: expected the name assignment and one dispatch statement")
 	}
 	hr := hq.Recv.List[0].Names[0].Name
 	hqv := hq.Type.Params.List[0].Names[0].Name
@@ -139,65 +144,178 @@ func genInternalQueries(repo string) (string, error) {
 		return "", fmt.Errorf("handleQuery: unsupported first statement")
 	}
 	tagVar := exprString(as.Lhs[0])
-	strips := exprString(as.Rhs[0]) == hqv+".Name[len(InternalQueryPrefix):]"
-	sw, ok := hq.Body.List[1].(*ast.SwitchStmt)
-	if !ok || sw.Init != nil || sw.Tag == nil || exprString(sw.Tag) != tagVar {
-		return "", fmt.Errorf("handleQuery: unsupported switch")
-	}
+	tagSrc := exprString(as.Rhs[0])
+	strips := tagSrc == hqv+".Name[len(InternalQueryPrefix):]" || tagSrc == "strings.TrimPrefix("+hqv+".Name, InternalQueryPrefix)"
 	if !strips {
-		return "", fmt.Errorf("handleQuery: the switch tag is %q", exprString(as.Rhs[0]))
+		return "", fmt.Errorf("handleQuery: the dispatch name is %q", tagSrc)
 	}
-	var cases []string
-	defaultOnlyLogs := false
-	sawDefault := false
-	for _, cl := range sw.Body.List {
-		cc := cl.(*ast.CaseClause)
-		if cc.List == nil {
-			sawDefault = true
-			defaultOnlyLogs = true
-			for _, s := range cc.Body {
-				es, ok := s.(*ast.ExprStmt)
-				if !ok || !strings.HasPrefix(exprString(es.X), hr+".logger.Printf(") {
-					defaultOnlyLogs = false
+	// constName resolves a case value: a constant identifier of the file (or a string literal).
+	constName := func(e ast.Expr) (string, error) {
+		switch x := e.(type) {
+		case *ast.Ident:
+			if v, ok := consts[x.Name]; ok {
+				return v, nil
+			}
+			return "", fmt.Errorf("handleQuery: constant %s not found", x.Name)
+		case *ast.BasicLit:
+			if x.Kind == token.STRING {
+				if v, err := strconv.Unquote(x.Value); err == nil {
+					return v, nil
 				}
 			}
-			continue
 		}
-		if len(cc.List) != 1 {
-			return "", fmt.Errorf("handleQuery: case with %d values", len(cc.List))
-		}
-		id, ok := cc.List[0].(*ast.Ident)
-		if !ok {
-			return "", fmt.Errorf("handleQuery: case value %q is not a constant name", exprString(cc.List[0]))
-		}
-		val, ok := consts[id.Name]
-		if !ok {
-			return "", fmt.Errorf("handleQuery: constant %s not found", id.Name)
-		}
-		handler := ""
-		switch len(cc.Body) {
-		case 0:
-		case 1:
-			es, ok := cc.Body[0].(*ast.ExprStmt)
-			if !ok {
-				return "", fmt.Errorf("handleQuery: unsupported case body for %s", id.Name)
-			}
-			call, ok := es.X.(*ast.CallExpr)
-			if !ok || len(call.Args) != 1 || exprString(call.Args[0]) != hqv || !strings.HasPrefix(exprString(call.Fun), hr+".") {
-				return "", fmt.Errorf("handleQuery: unsupported case body %q", exprString(es.X))
-			}
-			handler = strings.TrimPrefix(exprString(call.Fun), hr+".")
-		default:
-			return "", fmt.Errorf("handleQuery: case %s has %d statements", id.Name, len(cc.Body))
-		}
-		if containsSend(cc) {
-			return "", fmt.Errorf("handleQuery: case %s sends on a channel", id.Name)
-		}
-		cases = append(cases, fmt.Sprintf("(%s, %s)", strconv.Quote(val), strconv.Quote(handler)))
+		return "", fmt.Errorf("handleQuery: case value %q is not a string constant", exprString(e))
 	}
-	if !sawDefault {
-		// without a default an unknown name is dropped silently: same routing
-		defaultOnlyLogs = true
+	// condConsts: `name == c`, `c == name`, parenthesised, joined by `||`.
+	var condConsts func(e ast.Expr) ([]string, error)
+	condConsts = func(e ast.Expr) ([]string, error) {
+		switch x := e.(type) {
+		case *ast.ParenExpr:
+			return condConsts(x.X)
+		case *ast.BinaryExpr:
+			switch x.Op {
+			case token.LOR:
+				l, err := condConsts(x.X)
+				if err != nil {
+					return nil, err
+				}
+				r, err := condConsts(x.Y)
+				if err != nil {
+					return nil, err
+				}
+				return append(l, r...), nil
+			case token.EQL:
+				other := x.Y
+				if exprString(x.X) != tagVar {
+					if exprString(x.Y) != tagVar {
+						break
+					}
+					other = x.X
+				}
+				v, err := constName(other)
+				if err != nil {
+					return nil, err
+				}
+				return []string{v}, nil
+			}
+		}
+		return nil, fmt.Errorf("handleQuery: unsupported dispatch condition %q", exprString(e))
+	}
+	// handlerOf: an arm is empty or exactly one call `recv.handler(q)`; nothing is sent anywhere.
+	handlerOf := func(body []ast.Stmt, what string) (string, error) {
+		for _, st := range body {
+			if containsSend(st) {
+				return "", fmt.Errorf("handleQuery: arm %s sends on a channel", what)
+			}
+		}
+		switch len(body) {
+		case 0:
+			return "", nil
+		case 1:
+			es, ok := body[0].(*ast.ExprStmt)
+			if ok {
+				if call, ok := es.X.(*ast.CallExpr); ok && len(call.Args) == 1 && exprString(call.Args[0]) == hqv && strings.HasPrefix(exprString(call.Fun), hr+".") {
+					return strings.TrimPrefix(exprString(call.Fun), hr+"."), nil
+				}
+			}
+			return "", fmt.Errorf("handleQuery: unsupported arm %s: %q", what, exprString(body[0]))
+		}
+		return "", fmt.Errorf("handleQuery: arm %s has %d statements", what, len(body))
+	}
+	onlyLogs := func(body []ast.Stmt) bool {
+		for _, st := range body {
+			es, ok := st.(*ast.ExprStmt)
+			if !ok || !strings.HasPrefix(exprString(es.X), hr+".logger.Printf(") {
+				return false
+			}
+		}
+		return true
+	}
+	table := map[string]string{}
+	addArm := func(vals []string, body []ast.Stmt) error {
+		h, err := handlerOf(body, strings.Join(vals, ","))
+		if err != nil {
+			return err
+		}
+		for _, v := range vals {
+			if _, dup := table[v]; dup {
+				return fmt.Errorf("handleQuery: %q is dispatched twice", v)
+			}
+			table[v] = h
+		}
+		return nil
+	}
+	defaultOnlyLogs := true // no default / no final else: an unknown name is dropped silently
+	switch d := hq.Body.List[1].(type) {
+	case *ast.SwitchStmt:
+		if d.Init != nil || (d.Tag != nil && exprString(d.Tag) != tagVar) {
+			return "", fmt.Errorf("handleQuery: unsupported switch")
+		}
+		for _, cl := range d.Body.List {
+			cc := cl.(*ast.CaseClause)
+			for _, st := range cc.Body {
+				if _, ft := st.(*ast.BranchStmt); ft {
+					return "", fmt.Errorf("handleQuery: fallthrough / break in a case")
+				}
+			}
+			if cc.List == nil {
+				defaultOnlyLogs = onlyLogs(cc.Body)
+				continue
+			}
+			var vals []string
+			for _, e := range cc.List {
+				if d.Tag != nil {
+					v, err := constName(e)
+					if err != nil {
+						return "", err
+					}
+					vals = append(vals, v)
+				} else {
+					vs, err := condConsts(e)
+					if err != nil {
+						return "", err
+					}
+					vals = append(vals, vs...)
+				}
+			}
+			if err := addArm(vals, cc.Body); err != nil {
+				return "", err
+			}
+		}
+	case *ast.IfStmt:
+		for cur := ast.Stmt(d); cur != nil; {
+			ifs, isIf := cur.(*ast.IfStmt)
+			if !isIf {
+				blk, isBlk := cur.(*ast.BlockStmt)
+				if !isBlk {
+					return "", fmt.Errorf("handleQuery: unsupported else")
+				}
+				defaultOnlyLogs = onlyLogs(blk.List)
+				break
+			}
+			if ifs.Init != nil {
+				return "", fmt.Errorf("handleQuery: if with an init statement in the dispatch chain")
+			}
+			vals, err := condConsts(ifs.Cond)
+			if err != nil {
+				return "", err
+			}
+			if err := addArm(vals, ifs.Body.List); err != nil {
+				return "", err
+			}
+			cur = ifs.Else
+		}
+	default:
+		return "", fmt.Errorf("handleQuery: the dispatch is neither a switch nor an if chain")
+	}
+	var keys []string
+	for k := range table {
+		keys = append(keys, k)
+	}
+	sort.Strings(keys)
+	var cases []string
+	for _, k := range keys {
+		cases = append(cases, fmt.Sprintf("(%s, %s)", strconv.Quote(k), strconv.Quote(table[k])))
 	}
 
 	var b strings.Builder
